@@ -429,3 +429,61 @@ def to_tla(v) -> str:
   if isinstance(v, dict):
     return "[" + ", ".join(f"{k} |-> {to_tla(x)}" for k, x in v.items()) + "]"
   raise TypeError(type(v))
+
+
+# ---------------------------------------------------------------------------------------------------
+# Fast dump parser: TLA+ value text -> JSON text by substitution, parsed by the C json module.
+# Records -> dicts, tuples and sets -> lists, functions with non-1..n domain (k :> v @@ ...) are NOT supported
+# (returns None so that the caller can fall back to parse_dump).  Strings must not contain brackets or '|->'.
+# ---------------------------------------------------------------------------------------------------
+_RE_KEY = re.compile(r"(\b[A-Za-z_]\w*) \|->")
+
+
+def tla_to_json_text(txt: str):
+  if ":>" in txt or "@@" in txt:
+    return None
+  txt = txt.replace("{", "\x01").replace("}", "\x02")          # sets -> lists
+  txt = txt.replace("[", "{").replace("]", "}")                  # records -> objects
+  txt = txt.replace("<<", "[").replace(">>", "]").replace("\x01", "[").replace("\x02", "]")
+  txt = _RE_KEY.sub(r'"\1":', txt)
+  txt = re.sub(r"\bTRUE\b", "true", txt)
+  txt = re.sub(r"\bFALSE\b", "false", txt)
+  return txt
+
+
+def parse_dump_fast(path: str, variables):
+  """Parse a -dump file; returns a list of dicts {var: python value} (tuples/sets become lists)."""
+  import json as _json
+  with open(path) as fh:
+    text = fh.read()
+  out = []
+  blocks = re.split(r"^State \d+:\s*$", text, flags=re.M)
+  pat = re.compile(r"^/\\ (\w+) = ", flags=re.M)
+  for block in blocks:
+    block = block.strip()
+    if not block:
+      continue
+    if not block.startswith("/\\"):
+      block = "/\\ " + block
+    parts = pat.split(block)
+    d = {}
+    # parts: ['', var1, val1, var2, val2, ...]
+    for k in range(1, len(parts) - 1, 2):
+      var, val = parts[k], parts[k + 1]
+      if var not in variables:
+        continue
+      j = tla_to_json_text(val.strip())
+      if j is None:
+        d[var] = _tuples_to_lists(parse_tla(val.strip()))
+      else:
+        d[var] = _json.loads(j)
+    out.append(d)
+  return out
+
+
+def _tuples_to_lists(v):
+  if isinstance(v, (tuple, frozenset)):
+    return [_tuples_to_lists(x) for x in v]
+  if isinstance(v, dict):
+    return {k: _tuples_to_lists(x) for k, x in v.items()}
+  return v
